@@ -449,12 +449,12 @@ func (c *Ctx) finish(level, explanation string) int {
 			"functions_anchored":     funcs,
 			"known_findings_matched": knownHit,
 			"cross_reference":        xrefs,
-			"not_decided":            c.notDecided,
-			"undecided":              c.fatal,
+			"not_decided":            nonNil(c.notDecided),
+			"undecided":              nonNil(c.fatal),
 			"exhaustive":             false,
 			"checker_cmd":            strings.Join(os.Args, " "),
 		},
-		"assumptions": c.assumptions,
+		"assumptions": nonNil(c.assumptions),
 		"wall_s":      time.Since(c.Start).Seconds(),
 		"violations":  len(viol) + len(c.fatal),
 	}
@@ -471,4 +471,11 @@ func (c *Ctx) finish(level, explanation string) int {
 		return 1
 	}
 	return 0
+}
+
+func nonNil(s []string) []string {
+	if s == nil {
+		return []string{}
+	}
+	return s
 }
